@@ -57,19 +57,8 @@ theorem view_refines_batched_partial (cfg : Cfg) (hv : cfg.valid = true) (acts :
 server queues, in that order, as the queries it will answer (`serve`) -/
 theorem bot_queries_on_join {s : Srv} {b : Bot} (hw : SrvWF s) (hc : Coupled s b) {ub : SUser}
     (hub : aget s.users s.botKey = some ub) (name : Str) (hcomma : ',' ∉ name) :
-    (b.out ⟨ub.mask, "JOIN".toList, joinArgs s.cfg name⟩).filterMap reqOf = [Req.mode name, Req.bans name, Req.who name] := by
-  have huo := hw.uok hub
-  have hbn : NickOK b.nick := by rw [hc.nick]; exact hw.botNickOK
-  have hne : ub.mask ≠ b.nick := mask_ne_nick hbn
-  have hown : ub.nick = b.nick := by rw [hc.nick]; exact hw.bot_user hub
-  obtain ⟨rest, hargs⟩ := joinArgs_cons s.cfg name
-  have htag : b.tagRaises ⟨ub.mask, "JOIN".toList, name :: rest⟩ = false := tagOK_of_ok hc.isup _
-  have hns : "JOIN".toList ∉ Gen.nickSetters := setters_out_ok _ (by decide)
-  unfold Bot.out
-  simp only [htag, Bool.false_eq_true, ↓reduceIte, hne, hns, cmdOf_JOIN, hargs, msg_nick_user huo, hown]
-  simp only [joinRequests, splitChar_single hcomma, List.map_cons, List.map_nil, List.cons_append, List.nil_append]
-  have h1 : ("MODE".toList = "WHO".toList) = False := by decide
-  simp [reqOf, h1]
+    (b.out ⟨ub.mask, "JOIN".toList, joinArgs s.cfg name⟩).filterMap reqOf = [Req.mode name, Req.bans name, Req.who name] :=
+  out_own_join hw hc hub name hcomma
 
 /-- one more step from any reachable pair of states (the inductive step, usable on its own) -/
 theorem view_step (s : Srv) (b : Bot) (hw : SrvWF s) (hc : Coupled s b) (a : Act) (ha : a.ok) :
@@ -126,6 +115,46 @@ theorem view_channel_gone {s : Srv} {b : Bot} (hc : Coupled s b) (k : Str)
     have := (view_channels hc k).mp (by simp [hb])
     obtain ⟨sc, hs, hbot⟩ := this
     rw [h sc hs] at hbot; cases hbot
+
+
+/-! ### every query is answered or pending; at quiescence the view is exact -/
+
+/-- **queries_cover** — along every such run: each channel the bot is on has had its modes sent since the bot
+joined, or the bot's `MODE <chan>` query is still in the server's queue; the same for the ban list and
+`MODE <chan> +b`; and, on a connection with chghost (no host change of a visible user goes unannounced), every
+user the bot can see has had his current hostmask shown, or a `WHO` for every channel he shares with the bot
+is still queued.  (What `Coupled` leaves open — "exact once the reply has arrived" — is therefore only ever
+open while a query is in flight.) -/
+theorem queries_cover (cfg : Cfg) (hv : cfg.valid = true) (acts : List Act) (hok : ∀ a ∈ acts, a.ok) :
+    Complete (run (Srv.init cfg) (Bot.init cfg.botNick cfg.botIdent) acts).1 :=
+  run_complete acts _ _ (wf_init cfg hv) (coupled_init cfg hv) (complete_init cfg) hok
+
+/-- when the server's queue is empty (every query answered) and multi-prefix is negotiated, the bot's record
+of every channel it is on **equals** the server's: members, ops, halfops, voices, topic, modes, bans -/
+theorem view_exact_when_quiescent {s : Srv} {b : Bot} (hc : Coupled s b) (hcm : Complete s) (hq : s.pending = [])
+    (hmp : s.cfg.multiPrefix = true) {k : Str} {sc : SChan} (hs : aget s.chans k = some sc) (hb : sc.has s.botKey = true) :
+    ∃ ch, aget b.channels k = some ch ∧
+      (∀ x, x ∈ ch.users ↔ ∃ f, (x, f) ∈ sc.members) ∧
+      (∀ x, x ∈ ch.ops ↔ ∃ f, (x, f) ∈ sc.members ∧ f.o = true) ∧
+      (∀ x, x ∈ ch.halfops ↔ ∃ f, (x, f) ∈ sc.members ∧ f.h = true) ∧
+      (∀ x, x ∈ ch.voices ↔ ∃ f, (x, f) ∈ sc.members ∧ f.v = true) ∧
+      ch.topic = sc.topic ∧ (∀ m, aget ch.modes m = aget sc.modes m) ∧ (∀ x, x ∈ ch.bans ↔ x ∈ sc.bans.map lower) := by
+  have nopend : ∀ mk kk, ¬ Pend s.pending mk kk := by
+    rintro mk kk ⟨c, _, hm⟩; rw [hq] at hm; cases hm
+  have hms : k ∈ s.modesSynced := (hcm.modes k sc hs hb).resolve_right (nopend _ _)
+  have hbs : k ∈ s.bansSynced := (hcm.bans k sc hs hb).resolve_right (nopend _ _)
+  exact view_channel_full hc hs hb hmp hms hbs
+
+/-- … and (with chghost) `nicksToHostmasks` has the current hostmask of every user the bot can see -/
+theorem hostmasks_exact_when_quiescent {s : Srv} {b : Bot} (hw : SrvWF s) (hc : Coupled s b) (hcm : Complete s)
+    (hq : s.pending = []) (hcg : s.cfg.chghost = true) {x : Str} {u : SUser} (hu : aget s.users x = some u)
+    (hv : s.visible x = true) : aget b.n2h x = some u.mask := by
+  rcases hcm.hosts hcg x hv with ht | hall
+  · exact hc.hosts x u hu ht
+  · exfalso
+    obtain ⟨kc, sc, hsc, h1, h2⟩ := (visible_iff hw.chansNodup).mp hv
+    obtain ⟨c, _, hmem⟩ := hall kc sc hsc h1 h2
+    rw [hq] at hmem; cases hmem
 
 /-! ### the bot leaves, is kicked, reconnects: the channel disappears from its view -/
 
@@ -340,6 +369,22 @@ example :
 set_option maxRecDepth 100000 in
 example :
     (run (Srv.init cfg0) (Bot.init cfg0.botNick cfg0.botIdent) sampleRun).2.channels.map (·.1) = ["&loc".toList] := by
+  decide +kernel
+
+/-- a run that ends quiescent with the bot on a channel it shares with somebody: first the three queries are
+queued in the order the bot sent them, then `serve` answers them -/
+def quietRun : List Act :=
+  [.connect "Bob".toList "b".toList "host.one".toList, .join "bob".toList ["#Chan".toList],
+   .join "test".toList ["#chan".toList], .mode [] "#chan".toList [⟨true, 'b', some "*!*@bad".toList⟩]]
+
+set_option maxRecDepth 100000 in
+example :
+    (run (Srv.init cfg0) (Bot.init cfg0.botNick cfg0.botIdent) quietRun).1.pending =
+      [.mode "#Chan".toList, .bans "#Chan".toList, .who "#Chan".toList] ∧
+    (run (Srv.init cfg0) (Bot.init cfg0.botNick cfg0.botIdent) (quietRun ++ [.serve, .serve, .serve])).1.pending = [] ∧
+    (run (Srv.init cfg0) (Bot.init cfg0.botNick cfg0.botIdent) (quietRun ++ [.serve, .serve, .serve])).1.visible "bob".toList = true ∧
+    (aget (run (Srv.init cfg0) (Bot.init cfg0.botNick cfg0.botIdent) (quietRun ++ [.serve, .serve, .serve])).2.channels
+      "#chan".toList).map (·.bans) = some ["*!*@bad".toList] := by
   decide +kernel
 
 end C10
